@@ -15,6 +15,7 @@ import (
 
 const (
 	pkgBastion     = "github.com/transparency-dev/witness/internal/feeder/bastion"
+	pkgSumdb       = "github.com/transparency-dev/witness/internal/feeder/sumdb"
 	pkgFeedbastion = "github.com/transparency-dev/witness/cmd/feedbastion"
 	pkgWitness     = "github.com/transparency-dev/witness/internal/witness"
 	pkgLitmus      = "github.com/transparency-dev/witness/internal/verifrt/litmus"
@@ -110,6 +111,10 @@ func init() {
 		{Harness: pkgBastion + ".VerifParseBodyRefusal", Domain: sym.DomString, Solver: sym.CVC5, Quick: p("k", 2), Thorough: p("k", 4), Unwind: 4, CutOnUnwind: true, Covers: []string{"parse/accepts-one-proof-line", "parse/refuses"}},
 		{Harness: pkgWitness + ".VerifProofRoundTrip", Domain: sym.DomString, Solver: sym.CVC5, Quick: p("k", 8, "maxsplit", 10), Thorough: p("k", 64, "maxsplit", 66), Unwind: 200, Covers: []string{"proof/roundtrip-two"}},
 		{Harness: pkgFeedbastion + ".VerifWriterRoundTrip", Domain: sym.DomString, Solver: sym.CVC5, Quick: p("k", 8), Thorough: p("k", 64), Unwind: 200, Covers: []string{"writer/roundtrip-two"}},
+	}})
+	reg(&checkSpec{ID: "C18", Assumptions: append([]string{"decimal formatting (%d, %03d) is an uninterpreted function of the 64-bit value shared by both implementations", "tile byte decoding inside tlog.TileHashReader is outside the claim"}, commonAssumptions...), Runs: []runSpec{
+		{Harness: pkgSumdb + ".VerifTilePath", Domain: sym.DomString, Solver: sym.Z3, Quick: p(), Thorough: p(), Covers: []string{"tile/full-deep", "tile/partial-shallow", "tile/seven-levels"}},
+		{Harness: pkgWitness + ".VerifVCComplete", Quick: p("n", 16, "vc_inline", 1), Thorough: p("n", 64, "vc_inline", 1), Covers: []string{"vc/nontrivial-proof"}},
 	}})
 	reg(&checkSpec{ID: "vc", Runs: vcRuns(), Assumptions: commonAssumptions})
 	reg(&checkSpec{ID: "litmus", Runs: []runSpec{
